@@ -12,6 +12,8 @@ VARIABLES hist, links0, pre     \* pre: the model state before the last step (ed
 N3 == {1, 2, 3}
 N4 == {1, 2, 3, 4}
 N5 == {1, 2, 3, 4, 5}
+N6 == {1, 2, 3, 4, 5, 6}
+N7 == {1, 2, 3, 4, 5, 6, 7}
 Iso4 == { {{1,2},{2,3},{3,4}}, {{1,2},{1,3},{1,4}}, {{1,2},{2,3},{3,4},{4,1}}, {{1,2},{2,3},{3,1},{3,4}},
           {{1,2},{2,3},{3,4},{4,1},{1,3}}, {{1,2},{1,3},{1,4},{2,3},{2,4},{3,4}} }
 Kite  == { {{1,2},{1,3},{2,3},{2,4}} }
@@ -57,11 +59,59 @@ RNext == /\ Len(hist) < Depth
          /\ hist' = Append(hist, last') /\ pre' = <<links, st, parked, net>> /\ UNCHANGED links0
 RSpec == GInit /\ [][RNext]_<<vars, hist, links0, pre>>
 
-Scn == [par |-> [kind |-> "net", nodes |-> Node, links |-> links0, alpha |-> Alpha, maxttl |-> MaxTTL], ops |-> hist]
+
+\* ---- a response that comes back to a node on its own path while others still wait there -----------------------
+\* The branch of onRouteResp the other generators do not reach (they reach it only with nobody waiting): a response
+\* arrives at a node n that is ON one of its paths while a node that is not on that path still waits at n for the
+\* same target.  It needs a cycle through n and two request branches for one target that merge:
+\*   - two searches for the same target whose requests cross (4 nodes with a triangle: the answer one searcher
+\*     forwards to the other comes back while a third node's request is pending), or
+\*   - a table answer: a node C holds a passively recorded path S ... T ... for a target T that is not its neighbour
+\*     (an earlier request of S went that way) and has heard of T's underlay; at a node P of the cycle the branch that
+\*     came through S merges with one that did not (P asks C only once), so C's answer (checked against the path of
+\*     the request it answers, which does not contain S) is forwarded to S.
+\* TLC searches the behaviours of the given graphs breadth first (shortest first) for states in which such a response
+\* is in flight and prints the history plus its delivery; who searches for whom is restricted to FindPairs, everything
+\* else (order, losses, neighbour choice) is free.  The driver drains the rest of the traffic.
+\*   Theta7:  O=1 - S=2 - X=4 - T=5 - Y=6 - C=7 - P=3, P - O, P - S   (triangle O S P and cycle S X T Y C P)
+Theta7 == { {{1,2},{1,3},{2,3},{2,4},{4,5},{5,6},{6,7},{7,3}} }
+HeardTheta7 == {<<7, 5>>}
+PairsTheta7 == {<<2, 7>>, <<1, 5>>}
+\*   Theta6:  the same without X (S is T's neighbour: S's own search for T is the branch that merges at P)
+Theta6 == { {{1,2},{1,3},{2,3},{2,4},{4,5},{5,6},{6,3}} }
+HeardTheta6 == {<<6, 4>>}
+PairsTheta6 == {<<2, 6>>, <<1, 4>>, <<2, 4>>}
+FindPairs == {}     \* overridden by the configuration
+AllPairs == Node \X Node
+\*   4 nodes: graphs with a triangle, every search is for node 4
+Tri4 == Kite \cup { {{1,2},{2,3},{3,1},{3,4}}, {{1,2},{2,3},{3,4},{4,1},{1,3}} }
+PairsTo4 == {<<1, 4>>, <<2, 4>>, <<3, 4>>}
+
+LoopedRespAtWaiter(m) ==
+  /\ m.k = "resp"
+  /\ \A i \in 1..Len(m.paths) : Len(m.paths[i]) <= MaxTTL
+  \* ... the receiver is on a path, and somebody who is not on it waits here (and could record a forwarded copy, which would still be within the hop limit)
+  /\ \E i \in 1..Len(m.paths) : /\ m.to \in SeqRange(m.paths[i]) /\ Len(m.paths[i]) < MaxTTL
+                                /\ \E x \in SeqRange(st[m.to].resp[m.dest]) : x # m.to /\ x \notin SeqRange(m.paths[i])
+LoopedPending == \E m \in DOMAIN net : LoopedRespAtWaiter(m)
+
+\* (pre is not needed here and kept empty: the states of 7 nodes are large)
+MNext == /\ Len(hist) < Depth
+         /\ ~LoopedPending
+         /\ \/ \E p \in FindPairs : Find(p[1], p[2])
+            \/ Deliver
+            \/ Lose
+         /\ hist' = Append(hist, last') /\ pre' = <<>> /\ UNCHANGED links0
+MSpec == GInit /\ [][MNext]_<<vars, hist, links0, pre>>
+MView == <<st, net>>
+
+Scn == [par |-> [kind |-> "net", nodes |-> Node, links |-> links0, alpha |-> Alpha, maxttl |-> MaxTTL, heard |-> Heard], ops |-> hist]
 
 Quiet == net = <<>> /\ hist # <<>>
 EmitQuiet == Quiet => PrintT(<<"SCN", ToJson(Scn)>>)
 EmitAll   == hist # <<>> => PrintT(<<"SCN", ToJson(Scn)>>)
 EmitDone  == (Quiet /\ nfinds = MaxFinds /\ ninjects = MaxInjects) => PrintT(<<"SCN", ToJson(Scn)>>)
 EmitRelayDone == ninjects = 1 => PrintT(<<"SCN", ToJson(Scn)>>)
+EmitLooped == \A m \in DOMAIN net : LoopedRespAtWaiter(m) =>
+                 PrintT(<<"SCN", ToJson([Scn EXCEPT !.ops = Append(hist, [op |-> "deliver", m |-> MsgRec(m), fwd |-> {}])])>>)
 =============================================================================
